@@ -298,6 +298,49 @@ pub(crate) fn h_check_axis_datatype_dispatch() {
     }
 }
 
+/// C12 dispatch: every object kind of the property x conversion kind x limits inside / below / above the range:
+/// exactly one LimitCheckError when the declared limits lie outside, none otherwise, never for FORM
+pub(crate) fn h_check_limit_dispatch() {
+    let kind = vrt_choice(5);
+    let conv = vrt_choice(5);
+    let place = vrt_choice(3);
+    let conv_name = match conv { 0 => "NO_COMPU_METHOD", 1 => "cm_ident", 2 => "cm_lin", 3 => "cm_tab", _ => "cm_form" };
+    // UBYTE raw range 0..255; cm_lin maps it to 0..510
+    let (lo, hi) = match place { 0 => ("1", "200"), 1 => ("-5", "100"), _ => ("0", "1000") };
+    let mut t = String::from("ASAP2_VERSION 1 71 /begin PROJECT p \"\" /begin MODULE m \"\"\n");
+    t.push_str("/begin RECORD_LAYOUT rl FNC_VALUES 1 UBYTE ROW_DIR DIRECT AXIS_PTS_X 2 UBYTE INDEX_INCR DIRECT /end RECORD_LAYOUT\n");
+    t.push_str("/begin COMPU_METHOD cm_ident \"\" IDENTICAL \"%6.3\" \"\" /end COMPU_METHOD\n");
+    t.push_str("/begin COMPU_METHOD cm_lin \"\" LINEAR \"%6.3\" \"\" COEFFS_LINEAR 2 0 /end COMPU_METHOD\n");
+    t.push_str("/begin COMPU_METHOD cm_tab \"\" TAB_VERB \"%6.3\" \"\" COMPU_TAB_REF vt /end COMPU_METHOD\n");
+    t.push_str("/begin COMPU_METHOD cm_form \"\" FORM \"%6.3\" \"\" /begin FORMULA \"X1*1000\" /end FORMULA /end COMPU_METHOD\n");
+    t.push_str("/begin COMPU_VTAB vt \"\" TAB_VERB 1 1 \"one\" /end COMPU_VTAB\n");
+    match kind {
+        0 => { t.push_str("/begin MEASUREMENT ms \"\" UBYTE "); t.push_str(conv_name); t.push_str(" 0 0 "); t.push_str(lo); t.push(' '); t.push_str(hi); t.push_str(" /end MEASUREMENT\n"); }
+        1 => { t.push_str("/begin CHARACTERISTIC ch \"\" VALUE 0 rl 0 "); t.push_str(conv_name); t.push(' '); t.push_str(lo); t.push(' '); t.push_str(hi); t.push_str(" /end CHARACTERISTIC\n"); }
+        2 => { t.push_str("/begin AXIS_PTS ap \"\" 0 NO_INPUT_QUANTITY rl 0 "); t.push_str(conv_name); t.push_str(" 2 "); t.push_str(lo); t.push(' '); t.push_str(hi); t.push_str(" /end AXIS_PTS\n"); }
+        3 => {
+            t.push_str("/begin CHARACTERISTIC cu \"\" CURVE 0 rl 0 NO_COMPU_METHOD 0 255 /begin AXIS_DESCR STD_AXIS NO_INPUT_QUANTITY ");
+            t.push_str(conv_name); t.push_str(" 2 "); t.push_str(lo); t.push(' '); t.push_str(hi); t.push_str(" /end AXIS_DESCR /end CHARACTERISTIC\n");
+        }
+        _ => { t.push_str("/begin TYPEDEF_MEASUREMENT tm \"\" UBYTE "); t.push_str(conv_name); t.push_str(" 0 0 "); t.push_str(lo); t.push(' '); t.push_str(hi); t.push_str(" /end TYPEDEF_MEASUREMENT\n"); }
+    }
+    t.push_str("/end MODULE /end PROJECT");
+    let (file, _) = load_from_string(&t, None, true).unwrap();
+    let report = file.check();
+    let mut limit_errors = 0;
+    let mut other = 0;
+    for e in report.iter() {
+        if let A2lError::LimitCheckError { .. } = e { limit_errors += 1; } else { other += 1; }
+    }
+    vrt_check(other == 0, "C12 (harness) the dispatch document has no other consistency problem");
+    if place == 0 || conv == 4 {
+        vrt_check(limit_errors == 0, "C12 limits inside the mapped range (or a FORM conversion) cause no limit error, for every object kind");
+    } else {
+        vrt_check(limit_errors == 1, "C12 limits outside the mapped range are reported, for every object kind and evaluated conversion");
+    }
+    vrt_cover(true, "limit_dispatch_end");
+}
+
 // ------------------------------------------------------------------ C10: cleanup removes only, and all, unreferenced helpers
 
 fn xref_errors(file: &A2lFile) -> usize {
@@ -868,36 +911,49 @@ fn error_line(e: &A2lError) -> Option<u32> {
     }
 }
 
-/// one document per fault kind; the faulty token stands alone on line 6
-fn faulty_document(kind: u32) -> (String, bool) {
-    // returns (text, fault is recoverable)
-    let version = if kind == 7 || kind == 8 { "1 60" } else { "1 71" };
-    let mut t = String::from("ASAP2_VERSION ");
-    t.push_str(version);
-    t.push_str("\n/begin PROJECT p \"\"\n/begin MODULE m \"\"\n/begin MEASUREMENT ms \"\" UBYTE NO_COMPU_METHOD 0 0 0 255\nECU_ADDRESS 0x10\n");
+/// one document per fault kind; the faulty element starts on line 6. With `split` the first parameter of that
+/// element stands on line 7 (so a diagnostic about the parameter must say 7, one about the element 6).
+/// Kinds 11 / 12: the version line is missing / names a version the library does not know.
+fn faulty_document(kind: u32, split: bool) -> (String, u32) {
+    // returns (text, line of the token at which the problem is detected)
+    let version = if kind == 7 || kind == 8 { "ASAP2_VERSION 1 60\n" } else if kind == 11 { "\n" } else if kind == 12 { "ASAP2_VERSION 1 80\n" } else { "ASAP2_VERSION 1 71\n" };
+    let mut t = String::from(version);
+    t.push_str("/begin PROJECT p \"\"\n/begin MODULE m \"\"\n/begin MEASUREMENT ms \"\" UBYTE NO_COMPU_METHOD 0 0 0 255\nECU_ADDRESS 0x10\n");
     // line 6:
-    let (line6, recoverable) = match kind {
-        0 => ("FORMAT \"%6.3\"\n", true),                 // no fault
-        1 => ("PHYS_UNIT unquoted\n", true),              // identifier in place of a string
-        2 => ("FROBNICATE 1 2\n", true),                  // unknown keyword
-        3 => ("ECU_ADDRESS 0x20\n", true),                // optional element occurs too often
+    let (line6, at_param) = match kind {
+        0 => ("FORMAT \"%6.3\"\n", false),                 // no fault
+        1 => ("PHYS_UNIT unquoted\n", true),               // identifier in place of a string
+        2 => ("FROBNICATE 1 2\n", false),                  // unknown keyword
+        3 => ("ECU_ADDRESS 0x20\n", false),                // optional element occurs too often
         4 => ("/begin FORMAT \"%6.3\" /end FORMAT\n", false), // keyword written as block: hard fault in both modes
-        5 => ("BYTE_ORDER MSB_LAST_ODD\n", false),        // unknown enum value: hard fault
-        6 => ("ECU_ADDRESS\n", false),                    // missing parameter: hard fault
-        7 => ("ADDRESS_TYPE PBYTE\n", true),              // element newer than the declared file version (1.7.0 > 1.6.0)
-        8 => ("FORMAT \"%6.3\"\n", true),                 // older version, nothing wrong
+        5 => ("BYTE_ORDER MSB_LAST_ODD\n", true),          // unknown enum value: hard fault
+        6 => ("ECU_ADDRESS\n", false),                     // missing parameter: hard fault
+        7 => ("ADDRESS_TYPE PBYTE\n", false),              // element newer than the declared file version (1.7.0 > 1.6.0)
+        8 => ("FORMAT \"%6.3\"\n", false),                 // older version, nothing wrong
         9 => ("/begin FUNCTION_LIST 1fn /end FUNCTION_LIST\n", true), // identifier starting with a digit
-        _ => ("FORMAT \"%6.3\"\n", true),
+        _ => ("FORMAT \"%6.3\"\n", false),
     };
-    t.push_str(line6);
+    if split {
+        // put the first parameter on its own line: "KEYWORD param" -> "KEYWORD\nparam", "/begin KEYWORD param" likewise
+        let skip = if line6.starts_with("/begin ") { 7 } else { 0 };
+        match line6[skip..].find(' ') {
+            Some(p) => { t.push_str(&line6[..skip + p]); t.push('\n'); t.push_str(&line6[skip + p + 1..]); }
+            None => t.push_str(line6),
+        }
+    } else {
+        t.push_str(line6);
+    }
     t.push_str("/end MEASUREMENT\n/end MODULE\n/end PROJECT\n");
     if kind == 10 { t.push_str("SOMETHING_ELSE\n"); }      // additional tokens after the end of the file content
-    (t, recoverable)
+    let has_second_line = split && line6.trim_end().contains(' ');
+    let line = if kind == 10 { if has_second_line { 11 } else { 10 } } else if at_param && has_second_line { 7 } else { 6 };
+    (t, line)
 }
 
 pub(crate) fn h_strict_vs_nonstrict() {
-    let kind = vrt_choice(11);
-    let (text, _recoverable) = faulty_document(kind);
+    let kind = vrt_choice(13);
+    let split = vrt_choice(2) == 1;
+    let (text, fault_line) = faulty_document(kind, split);
     let strict = load_from_string(&text, None, true);
     let relaxed = load_from_string(&text, None, false);
     match (&strict, &relaxed) {
@@ -909,21 +965,29 @@ pub(crate) fn h_strict_vs_nonstrict() {
         (Ok(_), Err(_)) => vrt_check(false, "C06 if strict loading succeeds, non-strict loading succeeds as well"),
         (Err(_), Ok((_, lr))) => {
             vrt_check(lr.iter().any(|e| !is_deprecation(e)), "C06 if non-strict loading succeeds without problems, strict loading succeeds");
-            // every diagnostic carries the line of the token at which the problem was detected (the fault is on line 6,
-            // additional tokens on line 10)
+            // every diagnostic carries the line of the token at which the problem was detected
             for e in lr.iter() {
                 if let Some(l) = error_line(e) {
-                    vrt_check(l == 6 || (kind == 10 && l == 10), "C06 every diagnostic carries the line of the token at which the problem was detected");
+                    // kind 3 (element occurs too often): detected after the repeated element was parsed - its first or its last token
+                    vrt_check(l == fault_line || (kind == 3 && split && l == 7), "C06 every diagnostic carries the line of the token at which the problem was detected");
                 }
             }
         }
         (Err(_), Err(_)) => {}
     }
+    if let Err(e) = &strict {
+        // the strict error is about the same token
+        if let Some(l) = error_line(e) {
+            if kind != 4 && kind != 6 {
+                vrt_check(l == fault_line || (kind == 3 && split && l == 7), "C06 the strict error carries the line of the token at which the problem was detected");
+            }
+        }
+    }
     vrt_observe_bool(strict.is_ok());
     vrt_observe_bool(relaxed.is_ok());
     match kind {
         0 | 8 => vrt_check(strict.is_ok(), "C06 a valid document loads in strict mode"),
-        1 | 2 | 3 | 7 | 9 | 10 => {
+        1 | 2 | 3 | 7 | 9 | 10 | 11 | 12 => {
             vrt_check(strict.is_err(), "C06 strict loading rejects a recoverable problem");
             vrt_check(relaxed.is_ok(), "C06 non-strict loading recovers from a recoverable problem");
         }
@@ -1058,6 +1122,9 @@ const AML_DEFS: &[&str] = &[
     "block \"IF_DATA\" taggedstruct { (\"REP\" long)*; \"OPT\" struct { int; int64; }; };",
     "block \"IF_DATA\" struct { uint[3]; double; uint64; };",
     "struct Inner { uchar; taggedstruct { \"FLAG\"; \"VAL\" uint; }; }; block \"IF_DATA\" struct { struct Inner; };",
+    "block \"IF_DATA\" taggedunion { \"T1\" int; \"T2\" int; \"FLAG\"; };",
+    "block \"IF_DATA\" struct { uint; taggedunion { \"A\" int; \"B\" int; }; };",
+    "block \"IF_DATA\" struct { char; int; long; int64; int[2]; };",
 ];
 
 /// (conforming instance, instance with a single-token deviation) per definition
@@ -1067,6 +1134,9 @@ const AML_INST: &[(&str, &str)] = &[
     ("REP 1 REP 0x2 OPT 3 -4", "REP 1 REP 0x2 OPT 3"),
     ("1 2 3 2.5 18446744073709551615", "1 2 2.5 18446744073709551615"),
     ("7 FLAG VAL 0xFFFF", "7 FLAG VAL"),
+    ("T1 1", "T1 1 T2 2"),                 // a taggedunion holds at most one member
+    ("5 A 1", "5 A 1 B 2"),
+    ("0x80 0xFFFE 0x80000000 0x8000000000000000 0x8000 0x7FFF", "0x80 0xFFFE 0x80000000 0x8000000000000000 0x8000"),   // signed types in hex with the sign bit set
 ];
 
 fn ifdata_document(def: usize, inst: &str, crlf: bool) -> String {
